@@ -127,9 +127,16 @@ def _rulefile(ctx):
         fields = _fields(template)
         tags[kind] = template.split(':')[1] if ':' in template else template
         # formatter call
+        fdefs = {}
+        for sub in K.walk_no_nested(fmt.node):
+            if isinstance(sub, ast.Assign) and \
+                    isinstance(sub.targets[0], ast.Name):
+                fdefs.setdefault(sub.targets[0].id, []).append(
+                    N.txt(sub.value))
         calls = [s for s in K.walk_no_nested(fmt.node)
                  if isinstance(s, ast.Call) and K.is_meth(s, 'format') and
-                 N.txt(K.recv(s)) == tname]
+                 (N.txt(K.recv(s)) == tname or
+                  tname in fdefs.get(N.txt(K.recv(s)), []))]
         ctx.require(len(calls) == 1, 'format call of %s' % tname)
         call = calls[0]
         kws = [k.arg for k in call.keywords]
@@ -138,7 +145,8 @@ def _rulefile(ctx):
                    kind, sorted(set(fields)), sorted(kws)),
                construct='%s formatter keywords' % kind)
         wild_w = sorted(k.arg for k in call.keywords if any(
-            N.txt(s) in ('_ANY', "'*'") for s in ast.walk(k.value)))
+            N.txt(s) in ('_ANY', "'*'")
+            for s in ast.walk(_through(ctx, fmt, k.value))))
         # regex
         rname = tname.replace('_PATTERN', '_RE')
         rexpr = mod.consts.get(rname)
@@ -203,14 +211,8 @@ def _rulefile(ctx):
                         N.txt(sub.value) == 'data' and \
                         isinstance(sub.slice, ast.Constant):
                     consumed.add(sub.slice.value)
-                if isinstance(sub, ast.IfExp) and isinstance(
-                        sub.orelse, ast.Constant) and \
-                        sub.orelse.value is None and \
-                        '_ANY' in N.txt(sub.test):
-                    for leaf in ast.walk(sub.body):
-                        if isinstance(leaf, ast.Subscript) and \
-                                isinstance(leaf.slice, ast.Constant):
-                            wild_r.add(leaf.slice.value)
+                if isinstance(sub, ast.keyword):
+                    wild_r |= _decoded_wildcards(ctx, parse, sub.value)
             # each constructor argument is decoded from its own field
             for sub in ast.walk(blk):
                 if not isinstance(sub, ast.keyword) or sub.arg is None:
@@ -237,6 +239,48 @@ def _rulefile(ctx):
                construct='%s wildcard fields' % kind)
     ctx.ob('C15.1', fmt, None, len(set(tags.values())) == len(tags),
            'the kind tags differ: %s' % tags, construct='kind tags')
+
+
+def _through(ctx, func, expr):
+    """expr, read through a call to a tiny pure helper."""
+    if isinstance(expr, ast.Call):
+        inner = K.inline_expr_call(ctx.index, func, expr)
+        if inner is not None:
+            return inner
+    return expr
+
+
+def _decoded_wildcards(ctx, func, value):
+    """File-name fields of data[...] that ``value`` maps to None exactly
+    when they hold the wildcard marker."""
+    nz = N.Normaliser()
+    out = set()
+    expr = _through(ctx, func, value)
+    for sub in ast.walk(expr):
+        if not isinstance(sub, ast.IfExp):
+            continue
+        none_true = isinstance(sub.body, ast.Constant) and \
+            sub.body.value is None
+        none_false = isinstance(sub.orelse, ast.Constant) and \
+            sub.orelse.value is None
+        if none_true == none_false:
+            continue
+        other = sub.orelse if none_true else sub.body
+        atom = nz.atom(sub.test)
+        if atom.key[0] != 'cmp' or atom.key[1] not in ('==', '!='):
+            continue
+        terms = [t for t, _c in atom.key[2]]
+        if '_ANY' not in terms and "'*'" not in terms:
+            continue
+        if (atom.key[1] == '==') != none_true:
+            continue          # None for the non-wildcard values: not a decode
+        fields = [leaf.slice.value for leaf in ast.walk(other)
+                  if isinstance(leaf, ast.Subscript) and
+                  isinstance(leaf.slice, ast.Constant)]
+        tested = [t for t in terms if t not in ('_ANY', "'*'")]
+        if len(fields) == 1 and tested == [N.txt(other)]:
+            out.add(fields[0])
+    return out
 
 
 def _match_blocks(func, rname):
@@ -280,16 +324,41 @@ def _unique(ctx):
                 'appcfg.gen_uniqueid / _fmt_unique_name')
     bits = None
     alphabet = None
+    enc = [s for s in K.walk_no_nested(gen.node)
+           if isinstance(s, ast.Call) and
+           K.callee_text(s).endswith('to_base_n')]
+    ctx.require(len(enc) == 1 and enc[0].args, 'to_base_n call of '
+                                               'gen_uniqueid')
+    alpha_expr = K.kwarg(enc[0], 'alphabet')
+    if alpha_expr is not None:
+        alphabet = try_fold(index, mod, K.rexpr(gen, alpha_expr))
+    # the masks applied to the encoded value (and to what it was copied
+    # from): the narrowest one bounds the seed
+    names = set()
+    todo = [enc[0].args[0]]
+    while todo:
+        cur = todo.pop()
+        if isinstance(cur, ast.Name) and cur.id not in names:
+            names.add(cur.id)
+            for sub in K.walk_no_nested(gen.node):
+                if isinstance(sub, ast.Assign) and \
+                        N.txt(sub.targets[0]) == cur.id:
+                    todo.append(sub.value)
+        elif isinstance(cur, ast.BinOp) and isinstance(cur.op, ast.BitAnd):
+            for side in (cur.left, cur.right):
+                val = try_fold(index, mod, side)
+                if isinstance(val, int) and val > 0 and \
+                        (val & (val + 1)) == 0:
+                    bits = min(bits or 10 ** 9, val.bit_length())
+                else:
+                    todo.append(side)
     for sub in K.walk_no_nested(gen.node):
         if isinstance(sub, ast.AugAssign) and isinstance(sub.op,
                                                          ast.BitAnd) and \
-                N.txt(sub.target) == 'seed':
+                N.txt(sub.target) in names:
             val = try_fold(index, mod, sub.value)
             if isinstance(val, int) and val > 0 and (val & (val + 1)) == 0:
-                bits = val.bit_length()
-        if isinstance(sub, ast.Assign) and \
-                N.txt(sub.targets[0]) == 'numerals':
-            alphabet = try_fold(index, mod, sub.value)
+                bits = min(bits or 10 ** 9, val.bit_length())
     ctx.require(bits and alphabet, 'mask bits and alphabet of gen_uniqueid')
     rets = [s for s in K.walk_no_nested(gen.node)
             if isinstance(s, ast.Return)]
@@ -316,11 +385,8 @@ def _unique(ctx):
            '-' not in alphabet and '#' not in alphabet,
            "the id alphabet has no duplicate and contains neither '-' nor "
            "'#'", construct='id alphabet')
-    enc = [s for s in K.walk_no_nested(gen.node)
-           if isinstance(s, ast.Call) and
-           K.callee_text(s).endswith('to_base_n')]
-    ok = len(enc) == 1 and N.txt(K.kwarg(enc[0], 'alphabet')) == 'numerals' \
-        and N.txt(K.kwarg(enc[0], 'base')) == 'len(numerals)'
+    ok = len(enc) == 1 and K.kwarg(enc[0], 'base') is not None and \
+        N.txt(K.kwarg(enc[0], 'base')) == 'len(%s)' % N.txt(alpha_expr)
     ctx.ob('C15.2', gen, enc[0] if enc else None, ok,
            'the id is the seed in base len(alphabet) over that alphabet',
            construct='to_base_n arguments')
@@ -334,9 +400,20 @@ def _unique(ctx):
            "unique name = <app>-<id padded to 13>: %r" % tmpl,
            construct='unique name template')
     call = rets[0].value if rets else None
-    appkw = K.kwarg(call, 'app') if call is not None else None
+    appkw = None
+    if call is not None and tmpl is not None and isinstance(call, ast.Call):
+        fields = [fld for _l, fld, _s, _c in string.Formatter().parse(tmpl)
+                  if fld is not None]
+        first = fields[0] if fields else None
+        if first is not None and first.isdigit() and \
+                int(first) < len(call.args):
+            appkw = call.args[int(first)]
+        elif first == '' and call.args:
+            appkw = call.args[0]
+        elif first:
+            appkw = K.kwarg(call, first)
     ctx.ob('C15.2', fmt, call, appkw is not None and
-           N.txt(appkw).endswith(".replace('#', '-')"),
+           K.rtxt(fmt, appkw).endswith(".replace('#', '-')"),
            "the instance separator '#' is written as '-'",
            construct="'#' -> '-'")
     for name, expect in (('app_name', 2), ('app_unique_id', 1)):
@@ -454,7 +531,11 @@ def _events(ctx, modname, base_name, enum_name):
         # template
         rets = [s for s in K.walk_no_nested(ed.node)
                 if isinstance(s, ast.Return) and s.value is not None]
-        fields, seps = _template_fields(rets[0].value) if rets else ([], '')
+        whole = K.expr_of_function(ed.raw)
+        if whole is None and rets:
+            whole = rets[0].value
+        fields, seps = _template_fields(whole) if whole is not None \
+            else ([], '')
         if own:
             ctx.ob('C15.3', ed, rets[0] if rets else None,
                    sorted(fields) == sorted(own),
@@ -498,6 +579,14 @@ def _template_fields(expr):
                         K.name_is(leaf.value, 'self'):
                     fields.append(leaf.attr)
         return fields, seps
+    if isinstance(expr, ast.IfExp) and \
+            isinstance(expr.body, ast.Constant) and \
+            isinstance(expr.orelse, ast.Constant):
+        # a flag spelled as one of two literals
+        return sorted(set(
+            leaf.attr for leaf in ast.walk(expr.test)
+            if isinstance(leaf, ast.Attribute) and
+            K.name_is(leaf.value, 'self'))), ''
     return [], ''
 
 
